@@ -936,3 +936,43 @@ def _with_clht(pid, fn):
 
 for _pid, _fn in (("C03", _orig_c03), ("C04", _orig_c04), ("C05", _orig_c05), ("C07", _orig_c07), ("C08", _orig_c08), ("C11", _orig_c11), ("C13", _orig_c13)):
     CHECKS[_pid] = _with_clht(_pid, _fn)
+
+
+# ------------------------------------------------------------------ implementation-shaped concurrent cache model (CacheImpl)
+
+import cacheimpl  # noqa: E402
+
+CIMPL_QUICK = {"C02": ["I2-two-deleteexpired", "I3-lazydelete-vs-set", "I1b-deleteexpired-vs-getorset"], "C06": ["I2-two-deleteexpired", "I6-callback-swap"],
+               "C05": ["I4-racers-expired"]}
+
+
+def cacheimpl_models(ctx, prop):
+    """TLC enumerates every interleaving of the cache methods over an atomic map (CacheImpl.tla); every terminal history
+    must be accepted by the property-level machine CacheLin - the oracle that also judges the real code."""
+    names = list(cacheimpl.families()) if ctx.thorough else CIMPL_QUICK.get(prop, [])
+    for name in names:
+        r = cacheimpl.run_family(name, timeout=7200)
+        runs = cacheimpl.to_runs(name, r["family"], r["histories"])
+        rej, st = lib.validate_runs("Trace_CacheLin", runs, env={"PROP": prop}, timeout=7200, max_reject=1)
+        if rej:
+            i, evi, lines = rej[0]
+            raise Inconclusive("a terminal history of CacheImpl family %s (code's switches) is rejected by CacheLin at event %d: %s\n"
+                               "the specification misrepresents the code or the design is broken; not a verdict about the code" % (name, evi, lines[evi][:400]))
+        ctx.add_model("CacheImpl/" + name, r)
+        ctx.cov["tlc_models"][-1]["terminal_histories_accepted_by_CacheLin"] = len(runs)
+        ctx.cov["transitions"] += st["generated"]
+
+
+_o2, _o6, _o5b = CHECKS["C02"], CHECKS["C06"], CHECKS["C05"]
+
+
+def _with_cimpl(pid, fn):
+    def run(ctx):
+        cacheimpl_models(ctx, pid)
+        fn(ctx)
+    return run
+
+
+CHECKS["C02"] = _with_cimpl("C02", _o2)
+CHECKS["C06"] = _with_cimpl("C06", _o6)
+CHECKS["C05"] = _with_cimpl("C05", _o5b)
